@@ -365,6 +365,27 @@ func genC01(g *Gen) {
 			add(ensCfg[g.R.Intn(len(ensCfg))], x)
 		}
 	}
+	// a small top term, a long run of zeros, then one dense window: the doublings dictsumchain makes from the
+	// top term (2, 4, 8, …) re-create small elements the dictionary chain already holds, so the final
+	// sort + unique has duplicates to remove — on every dictionary configuration, small and wide windows
+	dictCfg := []config{}
+	for _, cfg := range append(append([]config{}, ensCfg...), extraCfg...) {
+		if cfg.kind == "dict" {
+			dictCfg = append(dictCfg, cfg)
+		}
+	}
+	for i := 0; i < g.pick(3, 24); i++ {
+		w := uint(6 + g.R.Intn(12))
+		low := g.R.Bits(int(w))
+		low.SetBit(low, int(w)-1, 1)
+		low.SetBit(low, 0, 1)
+		low.Lsh(low, uint(g.R.Intn(6)))
+		x := new(big.Int).Lsh(big.NewInt(int64(1+2*g.R.Intn(2))), uint(low.BitLen()+4+g.R.Intn(40)))
+		x.Add(x, low)
+		for _, cfg := range dictCfg {
+			add(cfg, x)
+		}
+	}
 	g.Parallel(tasks)
 	c01ViaParallel(g, ens)
 	c01History(g, append(append([]config{}, ensCfg...), extraCfg...))
